@@ -67,6 +67,7 @@ type PathResult struct {
 	Observes       []obsRec
 	ParseFloatArgs [][]*Term
 	pfMemo         map[string]*Term
+	MapOrder       bool
 	GlobalStores   map[string]bool
 	Candidates     []*Candidate
 	AllocLimit     int
@@ -343,7 +344,7 @@ func (e *Engine) runPath(run *HarnessRun, item workItem) *PathResult {
 	}
 	// paths whose observations depend on uninterpreted results (strconv.ParseFloat of
 	// a symbolic text) cannot be predicted by the engine: not used as validation traces
-	if (p.Status == "ok" || p.Status == "stop") && len(p.pfMemo) == 0 {
+	if (p.Status == "ok" || p.Status == "stop") && len(p.pfMemo) == 0 && !p.MapOrder {
 		if m := e.ensureModel(); m != nil {
 			p.Sample = &Candidate{Harness: run.Name, Params: run.Params, Kind: "sample", Tags: p.Tags, Values: p.concreteValues(e, m), Observed: p.predicted(e, m)}
 		}
